@@ -14,7 +14,7 @@ from bctmc.tally import Tally
 from bctmc import dtypes
 
 PROPERTY = 'C08'
-RULE = ('five structured graphs on 144-200 nodes against an exact-integer Brandes oracle (up to 2^64 shortest paths per pair); on the same families: self-connections on the diagonal change nothing; element types: every routine also on int64 / int32 / uint8 / bool copies of all 3-node digraphs over {0,1} and {0,1,2}, 4-node graphs over {0,1,2}, 5-node binary graphs (same values as for float64; integers must not raise, a boolean matrix may be rejected with TypeError); every free tree on 8-9 nodes under the scan orders of bctmc/trees.py (3354 labelled trees, 0/1); the structured 7-10 node family of bctmc/named.py (binary, lengths {1,2},{1,2,3}, near-tie) and all binary digraphs n<=4 and graphs n<=5; lengths {1,2} on 4-node graphs and 3-node digraphs, {1,2,3} and the near-tie alphabet {1,2,2+2^-20} on 3-node '
+RULE = ('all 4-node graphs over float32 lengths {0.1, 0.2, 0.3} (sums not representable in single precision) against the same values in float64; five structured graphs on 144-200 nodes against an exact-integer Brandes oracle (up to 2^64 shortest paths per pair); on the same families: self-connections on the diagonal change nothing; element types: every routine also on int64 / int32 / uint8 / bool copies of all 3-node digraphs over {0,1} and {0,1,2}, 4-node graphs over {0,1,2}, 5-node binary graphs (same values as for float64; integers must not raise, a boolean matrix may be rejected with TypeError); every free tree on 8-9 nodes under the scan orders of bctmc/trees.py (3354 labelled trees, 0/1); the structured 7-10 node family of bctmc/named.py (binary, lengths {1,2},{1,2,3}, near-tie) and all binary digraphs n<=4 and graphs n<=5; lengths {1,2} on 4-node graphs and 3-node digraphs, {1,2,3} and the near-tie alphabet {1,2,2+2^-20} on 3-node '
         'digraphs and binary graphs n=6 (thorough: lengths {1,2} on all 4-node digraphs and 5-node graphs); non-trivial = '
         'graph with a source-target pair joined by >= 2 distinct shortest paths, or with an unreachable ordered pair while '
         'some pair is >= 2 hops apart')
@@ -55,6 +55,7 @@ def plan(ctx):
         for (a, b) in ss.ranges(tot, max(1, min(800, tot // 40))):
             units.append((name, a, b))
     units += [('large', k, 0) for k in range(len(named.family('large_und')))]
+    units += [('f32', a, b) for (a, b) in ss.ranges(ss.und_count(4, F32_ALPHA), 16)]
     units += dtypes.units(dtypes.STD_FAMILIES)
     return units
 
@@ -175,7 +176,32 @@ def work_large(idx):
     return t
 
 
+F32_ALPHA = (0, 0.1, 0.2, 0.3)
+
+
+def work_f32(a, b):
+    """single-precision length matrices whose sums are not representable in single precision (0.1f + 0.2f < 0.3f exactly):
+    the routine must treat them as the float64 matrix holding the same values."""
+    t = Tally(PROPERTY)
+    for idx in range(a, b):
+        X32 = ss.und_graph(4, F32_ALPHA, idx).astype(np.float32)
+        X64 = X32.astype(np.float64)
+        for fname, f in (('betweenness_wei', bct.betweenness_wei), ('edge_betweenness_wei', bct.edge_betweenness_wei)):
+            s0, base = guarded(f, X64.copy())
+            s1, out = guarded(f, X32.copy())
+            t.c['evaluations'] += 1
+            case = {'family': 'float32_near_ties', 'index': idx, 'X': X64, 'call': fname}
+            if s0 != s1:
+                t.viol(fname, 'element_type:raises', case, observed=out)
+            elif s0 == 'ok' and not dtypes.same(out, base, 1e-6):
+                t.viol(fname, 'element_type:same_values', case, observed=out, expected=base, tags={'element_type': 'float32'})
+        t.c['nontrivial'] += 1
+    return t
+
+
 def work(unit):
+    if unit[0] == 'f32':
+        return work_f32(unit[1], unit[2])
     if unit[0] == 'large':
         return work_large(unit[1])
     if unit[0] == 'etype':
@@ -206,6 +232,8 @@ def replay(rec):
         return dtypes.replay(PROPERTY, ETYPE_FUNCS, rec['case'])
     t = Tally(PROPERTY)
     c = rec['case']
+    if c.get('family') == 'float32_near_ties':
+        return work_f32(c['index'], c['index'] + 1)
     if c.get('family') == 'named:large_und':
         return work_large(c['index'])
     check_case(t, np.array(c['X'], dtype=float), c, ('bin' in c['family']) if c['family'].startswith('named') else FAMILIES[c['family']][2] == BIN)
